@@ -140,6 +140,74 @@ def repeat_case(job):
     return bad
 
 
+# ------------------------------------------------------------------------- (e)
+
+# multi-reactant reactions in which a ring is formed, opened or only partly kept: the MCS search conditions
+# differ in RingMatchesRingOnly / CompleteRingsOnly, so anything remembered from one condition or one row
+# and used for another shows on these first
+RING_PROBES = [
+    "C1=CC2C=CC1C2.CC(C)(C)OOC(=O)c1ccccc1>>CC(C)(C)OC1C2C=CC1C=C2",      # bicyclic alkene + perester -> allylic ether
+    "CCOC(=O)CC(C)=O.Oc1cccc(O)c1>>CC1=CC(=O)Oc2cc(O)ccc12",              # Pechmann: ring closure onto a phenol
+    "CCOC(=O)CC(=O)CC.Oc1ccccc1>>CCc1cc(=O)oc2ccccc12",                   # the same with an aromatic spelling
+    "O=C1CCCCC1.NNc1ccccc1>>c1ccc2c(c1)[nH]c1CCCCc12",                    # Fischer indole: new ring fused to two old ones
+    "C1CCC=CC1.CCCCO>>CCCCCCOCCCC",                                       # ring opened to a chain that competes with a chain
+    "C=CC=C.C=CC(=O)OC>>COC(=O)C1CCC=CC1",                                # Diels-Alder: ring from two chains
+    "OCCCCBr.OC(=O)c1ccccc1>>O=C(OCCCCO)c1ccccc1",                        # chain + ring, nothing closes
+    "O=C1OC(=O)c2ccccc12.NCCc1ccccc1>>O=C1N(CCc2ccccc2)C(=O)c2ccccc12",   # anhydride -> imide, ring atom replaced
+    "COC(=O)C1CCCCC1=O.Nc1ccccc1>>O=c1c2c([nH]c3ccccc13)CCCC2",           # Conrad-Limpach type closure
+    "C1CO1.c1ccccc1[Mg]Br>>OCCc1ccccc1",                                  # epoxide opened by an aryl
+]
+
+
+def fillers(n):
+    """n distinct small MCS-bound reactions (ester hydrolyses with the alcohol missing)"""
+    out = []
+    i = 0
+    while len(out) < n:
+        a, b = 1 + i % 12, 2 + i // 12
+        out.append("C" * a + "C(=O)O" + "C" * b + ">>" + "C" * a + "C(=O)O")
+        i += 1
+    return out
+
+
+def bigbatch_case(job):
+    """(e) one fresh Balancer: every probe alone, then all probes inside ONE batch together with n distinct
+    other reactions (before or after them), then every probe alone again.  The three rows of a probe agree."""
+    from synrbl import Balancer
+
+    probes, n, pos = job["probes"], job["n"], job["pos"]
+    b = Balancer(n_jobs=1)
+    b.confidence_threshold = 0
+
+    def one(rx):
+        return row_tuple(pipeline.norm_row(b.rebalance([rx], output_dict=True)[0]))
+
+    before = [one(p) for p in probes]
+    fl = fillers(n)
+    batch = (probes + fl) if pos == "first" else (fl + probes)
+    rows = b.rebalance(list(batch), output_dict=True)
+    bad = []
+    if rows is None or len(rows) != len(batch):
+        return [{"key": ["row-count"], "what": "{} rows for a batch of {}".format(None if rows is None else len(rows), len(batch))}]
+    off = 0 if pos == "first" else len(fl)
+    inside = [row_tuple(pipeline.norm_row(r)) for r in rows[off:off + len(probes)]]
+    after = [one(p) for p in probes]
+    for p, x, y, z in zip(probes, before, inside, after):
+        if not (x == y == z):
+            cols = sorted({k for k, u, v, w in zip(KEYS, x, y, z) if not (u == v == w)})
+            bad.append({"key": ["row-depends-on-context", ",".join(cols)],
+                        "what": "{} alone gives {}, {} {} other reactions in one batch {}, alone afterwards {} (differing columns only)".format(
+                            p, [u for k, u in zip(KEYS, x) if k in cols], "before" if pos == "first" else "after", n,
+                            [u for k, u in zip(KEYS, y) if k in cols], [u for k, u in zip(KEYS, z) if k in cols])})
+    # two of the other reactions against their alone-run as well
+    for i in (0, len(fl) - 1):
+        got = row_tuple(pipeline.norm_row(rows[(len(probes) if pos == "first" else 0) + i]))
+        want = one(fl[i])
+        if got != want:
+            bad.append({"key": ["row-depends-on-context", "filler"], "what": "{} inside the batch of {} gives {} but alone {}".format(fl[i], len(batch), got, want)})
+    return bad
+
+
 # ------------------------------------------------------------------------- (b)
 
 
@@ -272,6 +340,15 @@ def run(tier, seed):
                         "rule": "histories [X], [Y], [X], [Y+X] on one fresh Balancer for every ordered pair of single reactions; the rest was skipped because state leaks between calls",
                         "exhaustive": False}
         return res
+    # (e) large batches: the ring probes with n other distinct reactions in one batch, n on a ladder around the
+    # usual sizes of bounded caches (64, 128, 256)
+    ladder = (72, 136, 264) if thorough else (72,)
+    bj = [{"probes": RING_PROBES[i:i + 2], "n": n, "pos": pos} for n in ladder for pos in (("first", "last") if thorough else ("first",))
+          for i in range(0, len(RING_PROBES), 2)]
+    rb = pmap("checks.c06:bigbatch_case", bj, chunk=1, seed=seed, timeout=7200)
+    for j, bad in zip(bj, rb):
+        for b in bad:
+            res.add(Violation("big-batch", j, None, None, b["key"], b["what"]))
     # (a)
     subs = [tuple(p) for k in (1, 2) for p in itertools.permutations(B06, k)]
     subs += [tuple(p) for p in itertools.permutations(B06, 3)] if thorough else covering_triples()
@@ -344,7 +421,7 @@ def run(tier, seed):
             res.add(Violation("conformance", {"rxns": conf_batch, "n_jobs": k}, None, None, x["key"], x["what"]))
     res.coverage = {
         "states": len(outcomes) + len(subs),
-        "transitions": n_exec + len(subs) + len(pj) + 4 * len(reps),
+        "transitions": n_exec + len(subs) + len(pj) + 4 * len(reps) + 5 * len(bj),
         "traces_validated_against_impl": validated,
         "samples": [{"sub_batch": list(subs[150])}, {"schedule": sub_jobs[3]}, {"choice_point_sites": roots[0]["labels"]}],
         "executions": n_exec,
@@ -354,16 +431,18 @@ def run(tier, seed):
         "parallel_calls_per_run": roots[0]["parallel_calls"],
         "distinct_outcomes": len(outcomes),
         "sub_batches": len(subs) + len(wjobs),
+        "big_batches": len(bj),
+        "big_batch_sizes": [len(RING_PROBES[:2]) + n for n in ladder],
         "partitions": len(pj),
         "real_joblib_worker_counts": list(ks),
-        "evaluations": n_exec + len(subs) + len(pj) + len(reps),
+        "evaluations": n_exec + len(subs) + len(pj) + len(reps) + len(bj),
         "distinct_nontrivial": len(subs) + n_exec,
         "rule": "(a) every ordered sub-batch of size 1..2{}, batches that repeat a reaction (x,x / x,x,y / x,y,x / y,x,x) (triples and 3..5-tuples of MCS-bound reactions also with n_jobs 2 and 3) of the 16-reaction base set, the 17-reaction set under every "
                 "batch size; (b) for 3 batches of 3 rows every Parallel call x every non-default task order "
                 "(all 3! orders) with <= {} order deviation(s) x isolation {} (two deviations: inline for every batch and per-task copies for the first batch; one deviation otherwise); (c) real joblib with n_jobs in {}; "
-                "(d) repeated runs on one instance.  distinct_outcomes = distinct row tables seen over all schedules "
+                "(d) repeated runs on one instance; (e) {} ring-forming/-opening multi-reactant probes, two at a time, alone / inside one batch with n other distinct reactions (n in {}) / alone again on one fresh Balancer.  distinct_outcomes = distinct row tables seen over all schedules "
                 "(1 per batch and isolation means no schedule changed anything).".format(
-                    " and every triple" if thorough else " and 128 triples of a cyclic covering design", bound, list(isos), list(ks)),
+                    " and every triple" if thorough else " and 128 triples of a cyclic covering design", bound, list(isos), list(ks), len(RING_PROBES), list(ladder)),
         "exhaustive": True,
     }
     res.assumptions = [
@@ -399,6 +478,8 @@ def replay(v):
         if v.key == ["schedule", "stats"] and stats != sum_stats([alone(r)[1] for r in c["rxns"]]):
             out.append(Violation(v.sub, c, stats, None, v.key, "stats differ"))
         return out
+    if v.sub == "big-batch":
+        return [Violation(v.sub, c, None, None, b["key"], b["what"]) for b in bigbatch_case(c) if b["key"] == v.key]
     if v.sub == "conformance":
         x = conformance_case(c)
         return [] if x["ok"] else [Violation(v.sub, c, None, None, x["key"], x["what"])]
